@@ -145,9 +145,19 @@ func checkC15(ctx *Ctx) {
 				if r.Chance(6) {
 					a = nonASCIIInside(r, a)
 				}
+				if r.Chance(5) || (name == "vers" && k == 0 && r.Chance(10)) {
+					a = encodedArg(r, a)
+				}
 				av = append(av, a)
 			}
 			add(av)
+			// the same vector with its first two arguments exchanged, and rotated by one: which
+			// argument names the ecosystem and which the command is decided by position too
+			if len(av) >= 3 && r.Chance(8) {
+				sw := append([]string{av[1], av[0]}, av[2:]...)
+				add(sw)
+				add(append(append([]string{}, av[1:]...), av[0]))
+			}
 			// the same arguments in another order: which argument is the range and which the
 			// version is decided by position, not by what the texts look like
 			if len(av) == 4 && r.Chance(15) {
@@ -373,4 +383,57 @@ func mixedPkgrel(vals []any) bool {
 		}
 	}
 	return with && without
+}
+
+// encodedArg: the argument with one or all of its punctuation bytes written in an escape notation
+// some other tool would decode (percent-encoding, a backslash escape, an HTML entity, '+' for a
+// blank).  To the CLI an argument is a text: the escaped text is what the library must be asked.
+func encodedArg(r *RNG, a string) string {
+	var pos []int
+	for i := 0; i < len(a); i++ {
+		c := a[i]
+		if c < 0x80 && !(c >= '0' && c <= '9') && !(c >= 'a' && c <= 'z') && !(c >= 'A' && c <= 'Z') {
+			pos = append(pos, i)
+		}
+	}
+	if len(pos) == 0 {
+		if len(a) == 0 {
+			return "%20"
+		}
+		pos = []int{r.Intn(len(a))}
+	}
+	enc := func(c byte) string {
+		switch r.Intn(6) {
+		case 0:
+			return fmt.Sprintf("\\x%02x", c)
+		case 1:
+			ent := map[byte]string{'>': "&gt;", '<': "&lt;", '&': "&amp;", '"': "&quot;"}
+			if e, ok := ent[c]; ok {
+				return e
+			}
+			return fmt.Sprintf("&#%d;", c)
+		case 2:
+			return fmt.Sprintf("%%%02x", c)
+		default:
+			return fmt.Sprintf("%%%02X", c)
+		}
+	}
+	if r.Chance(45) {
+		// every punctuation byte after the scheme separator (or all of them)
+		from := strings.IndexByte(a, '/') + 1
+		var b strings.Builder
+		mode := r.Intn(2)
+		for i := 0; i < len(a); i++ {
+			c := a[i]
+			isP := c < 0x80 && !(c >= '0' && c <= '9') && !(c >= 'a' && c <= 'z') && !(c >= 'A' && c <= 'Z')
+			if isP && i >= from && (mode == 0 || c != '.') {
+				b.WriteString(fmt.Sprintf("%%%02X", c))
+			} else {
+				b.WriteByte(c)
+			}
+		}
+		return b.String()
+	}
+	i := pos[r.Intn(len(pos))]
+	return a[:i] + enc(a[i]) + a[i+1:]
 }
